@@ -52,6 +52,33 @@ static std::string nullaryWithParens(const std::string& txt, vh::Rng& g)
 	return out;
 }
 
+// the same description in another legal layout: optional blanks/tabs around the tokens of a rule
+// ("sym ( c1 ,\tc2 )  ->  par", "sym( ) -> par"), indentation, trailing blanks, blank lines, CR LF
+static std::string relayout(const std::string& txt, vh::Rng& g)
+{
+	auto ws = [&](int maxn) { std::string w; int n = g.range(0, maxn); for (int i = 0; i < n; ++i) w += g.chance(1, 4) ? '\t' : ' '; return w; };
+	std::istringstream is(txt); std::string line, out; bool trans = false;
+	while (std::getline(is, line))
+	{
+		if (!trans || line.find("->") == std::string::npos)
+		{
+			if (line.compare(0, 11, "Transitions") == 0) trans = true;
+			out += line + ws(2) + (g.chance(1, 6) ? "\r\n" : "\n"); if (g.chance(1, 5)) out += ws(3) + "\n"; continue;
+		}
+		size_t ar = line.find(" -> "); std::string lhs = line.substr(0, ar), rhs = line.substr(ar + 4), nl;
+		size_t pb = lhs.find('(');
+		if (pb == std::string::npos) { nl = ws(2) + lhs; if (g.chance(1, 2)) nl += ws(1) + "(" + ws(2) + ")"; }
+		else
+		{
+			nl = ws(2) + lhs.substr(0, pb) + ws(1) + "(" + ws(2); std::string inner = lhs.substr(pb + 1, lhs.size() - pb - 2);
+			for (char c : inner) { if (c == ',') nl += ws(1) + "," + ws(2); else nl += c; }
+			nl += ws(2) + ")";
+		}
+		out += nl + ws(2) + "->" + ws(2) + rhs + ws(2) + (g.chance(1, 6) ? "\r\n" : "\n");
+	}
+	return out;
+}
+
 template <class A>
 static void roundTripEncoding(const char* enc, const std::string& txt)
 {
@@ -86,6 +113,14 @@ static void caseRoundTrip(vh::Rng& g)
 		if (!(e == d)) R->count("info:description-not-fully-equal(symbols/states/name)");
 		std::string t2 = nullaryWithParens(txt, g);
 		if (t2 != txt) { R->count("nullary-with-parentheses"); AutDescription f = parser().ParseString(t2); if (!(f.transitions == d.transitions) || !(f.finalStates == d.finalStates)) R->violation("C13/description/nullary-parentheses-form-differs", t2); }
+		for (int v = 0; v < 2; ++v)
+		{	// layout variants of the same text must parse to the same description
+			std::string t3 = relayout(txt, g); R->count("layout-variants"); R->desc(t3);
+			AutDescription f = parser().ParseString(t3);
+			if (!(f.transitions == d.transitions)) R->violation("C13/description/layout-variant-rules-differ", t3);
+			else if (!(f.finalStates == d.finalStates)) R->violation("C13/description/layout-variant-final-states-differ", t3);
+		}
+		R->desc(txt);
 	}
 	catch (std::exception& ex) { R->violation("C13/description/exception", std::string(ex.what()) + "\n" + txt); }
 	if (!d.transitions.empty()) { R->nontrivial(vh::fnv("rt" + txt)); if (R->wantSample()) R->sample("round trip:\n" + txt); }
